@@ -493,15 +493,66 @@ func observe(p bo.Box) []oline {
 }
 
 // symptoms of known findings, read from the laid-out paragraph
-func symptoms(p bo.Box, ls []oline, avail pr.Fl) []string {
+func symptoms(p bo.Box, ls []oline, avail pr.Fl, items []item, em int) []string {
 	var tags []string
-	right := pr.Fl(p.Box().ContentBoxX()) + avail
-	for _, l := range ls {
+	// Known finding C11/trailing-space-at-limit: walk the words of the implementation's
+	// fragments along the item list.
+	var wordAt []int // index in items of the k-th Word
+	for i, it := range items {
+		if it.Kind == 'W' {
+			wordAt = append(wordAt, i)
+		}
+	}
+	// the text node ends with one collapsible space right after item i
+	nodeEndSpace := func(i int) bool {
+		return i+1 < len(items) && items[i+1].Kind == 'S' && collapsesWS(items[i+1].mode) &&
+			(i+2 == len(items) || items[i+2].Kind != 'W')
+	}
+	words := 0
+	blank, lastJust, dropped := false, false, false
+	prevEndsAtSpaceBeforeBr := false
+	for k, l := range ls {
+		if len(l.frags) == 0 && l.w == 0 && prevEndsAtSpaceBeforeBr {
+			blank = true // an empty line box holding only the <br>
+		}
+		prevEndsAtSpaceBeforeBr = false
 		for i, f := range l.frags {
-			if i > 0 && !f.atomic && strings.HasSuffix(f.text, " ") && f.x+f.w > right*(1+1e-5) {
-				tags = append(tags, "impl-overflow-trailing-space")
+			if f.atomic {
+				continue
+			}
+			words += len(strings.Fields(f.text))
+			if words == 0 || words > len(wordAt) || !nodeEndSpace(wordAt[words-1]) {
+				continue
+			}
+			after := wordAt[words-1] + 2 // first item after the space
+			if i == len(l.frags)-1 {
+				j := after
+				for j < len(items) && (items[j].Kind == 'O' || items[j].Kind == 'C') {
+					j++
+				}
+				if j < len(items) && items[j].Kind == 'H' {
+					prevEndsAtSpaceBeforeBr = true
+				}
+				j = after
+				for j < len(items) && items[j].Kind == 'C' {
+					j++
+				}
+				if k == len(ls)-1 && j == len(items) && f.w > pr.Fl(len([]rune(f.text))*em)+0.01 {
+					lastJust = true // the last line of the paragraph has been justified
+				}
+			} else if !strings.HasSuffix(f.text, " ") {
+				dropped = true
 			}
 		}
+	}
+	if blank {
+		tags = append(tags, "impl-blank-line-before-br")
+	}
+	if lastJust {
+		tags = append(tags, "impl-last-line-justified")
+	}
+	if dropped {
+		tags = append(tags, "impl-space-dropped-midline")
 	}
 	// last fragment of every inline box: must carry the end edge
 	type key struct {
@@ -800,7 +851,7 @@ func (rn *runner) runParaAt(p *para, items []item, widths []int, engine, kind st
 				"inner_html": p.inner(), "items": coqItems(items), "impl_lines": descLines(ls),
 				"para": p, // corpus format: {"para":…, "widths":[…], "engine":…}
 			},
-			Tags:       append(append(append([]string{}, tags...), fmt.Sprintf("lines=%d", min(len(ls), 4))), symptoms(ps[i], ls, pr.Fl(w))...),
+			Tags:       append(append(append([]string{}, tags...), fmt.Sprintf("lines=%d", min(len(ls), 4))), symptoms(ps[i], ls, pr.Fl(w), items, p.Em)...),
 			Nontrivial: len(ls) >= 2,
 		})
 	}
